@@ -164,3 +164,12 @@ Example C01_ex_blank_lines_first :
 Proof. vm_compute. reflexivity. Qed.
 Example C01_ex_failing_stream : decode ex_L TErr = [Rec ex_r1; Rec ex_r2; ErrItem].
 Proof. vm_compute. reflexivity. Qed.
+
+(* ---- tie to the Go source by translation (gen/SrcGen.v, regenerated on every run) ---- *)
+From Bio.gen Require SrcGen.
+From Bio.Proofs Require SrcGenProofs.
+
+(* the writer's line length is the constant textLineLen of formats/fasta/fasta.go *)
+Theorem C01_line_length_is_source : Z.of_nat Bio.Model.Fasta.text_line_len = SrcGen.k_fasta_textLineLen.
+Proof. exact SrcGenProofs.text_line_len_is_source. Qed.
+Print Assumptions C01_line_length_is_source.
